@@ -33,12 +33,17 @@ class Wire:
             self.sched = list(sched)
 
 
+class WouldBlockForever(Hang):
+    """a read on a socket without a time-out while the peer is silent: the real call never returns"""
+
+
 class FakeSocket:
-    def __init__(self, wire, tls=False):
+    def __init__(self, wire, tls=False, timeout=None):
         self.wire, self.tls = wire, tls
+        self.timeout = timeout      # as a real socket: None = blocking for ever, until settimeout() says otherwise
 
     def settimeout(self, t):
-        pass
+        self.timeout = t
 
     def close(self):
         pass
@@ -58,6 +63,8 @@ class FakeSocket:
             if w.delayed:       # the data was merely slow: it is there for whoever reads next
                 w.stream += w.delayed
                 w.delayed = b""
+            if self.timeout is None:
+                raise WouldBlockForever()
             raise socket.timeout("timed out")
         cap = n
         if w.sched:
@@ -82,7 +89,7 @@ class FakeCtx:
             raise ssl.SSLError("handshake failed")
         if self.wire.server is not None and hasattr(self.wire.server, "tls_started"):
             self.wire.release(self.wire.server.tls_started())
-        return FakeSocket(self.wire, tls=True)
+        return FakeSocket(self.wire, tls=True, timeout=getattr(sock, "timeout", None))
 
 
 def hexor(b):
